@@ -347,6 +347,11 @@ func chainMods(n int, p purposeKind) (viol []chainMod, benign []chainMod) {
 		v(fmt.Sprintf("issuer-name-attributes-reordered@%d", i), i, func(d *chainDesc) { d.permDN[i] = true })
 		v(fmt.Sprintf("signature-value-corrupted@%d", i), i, func(d *chainDesc) { d.badSig[i] = true })
 		v(fmt.Sprintf("issuer-name-values-as-utf8string@%d", i), i, func(d *chainDesc) { d.utf8DN[i] = true })
+		if i == n-1 && n >= 2 {
+			// a last certificate that carries its own name but was signed by another key, with a SHA-1 based algorithm: not self-signed,
+			// whatever the reason the signature cannot be checked for
+			v("last-certificate-self-issued-signed-by-another-key-with-sha1", i, func(d *chainDesc) { d.wrongKey[i], d.sha1[i] = true, true })
+		}
 		if i < n-1 {
 			// (the root's own signature is left out: whether a SHA-1 self-signature on a trust anchor matters is not something the statement decides)
 			v(fmt.Sprintf("signed-with-a-sha1-algorithm@%d", i), i, func(d *chainDesc) { d.sha1[i] = true })
